@@ -91,6 +91,24 @@ def programs(ctx):
                     ("recv-fn-try", "func wq() {\n cq = make(chan int64)\n return <-cq\n}\ntry {\n wq()\n} catch e {\n}"), ("spin-fn-try-finally", "func wq() {\n for {\n }\n}\ntry {\n wq()\n} catch e {\n} finally {\n}"),
                     ("recv-nilco-in-fn", "func wq() {\n cq = make(chan int64)\n return (<-cq) ?? 1\n}\nwq()"), ("send-fn-nilco", "func wq() {\n cq = make(chan int64)\n cq <- 1\n}\nzq = wq() ?? 5")):
         out.append({"id": "%s|last" % nm, "src": src, "pre": "", "threads": 0})
+    # constructs that an EARLIER run (plain Execute, background context) has already evaluated once without waiting -- whatever the interpreter
+    # remembers per tree node from that run -- and in which the cancellable run then spins or blocks
+    rerun = [("recv", "func xr(ch) {\n return <-ch\n}\nc0 = make(chan int64, 1)\nc0 <- 1\nxr(c0)", "cq = make(chan int64)\np(1)\nxq = xr(cq)"),
+             ("recv-stmt", "func xs(ch) {\n v, ok = <-ch\n return v\n}\nc0 = make(chan int64, 1)\nc0 <- 1\nxs(c0)", "cq = make(chan int64)\np(1)\nxq = xs(cq)"),
+             ("recv-in-expr", "func xe(ch) {\n return (<-ch) + 1\n}\nc0 = make(chan int64, 1)\nc0 <- 1\nxe(c0)", "cq = make(chan int64)\np(1)\nxq = xe(cq) ?? 3"),
+             ("send", "func xd(ch) {\n ch <- 1\n}\nc0 = make(chan int64, 1)\nxd(c0)", "cq = make(chan int64)\np(1)\nxd(cq)"),
+             ("range", "func xg(ch) {\n for v in ch {\n  p(2)\n }\n}\nc0 = make(chan int64, 1)\nc0 <- 1\nclose(c0)\nxg(c0)", "cq = make(chan int64)\np(1)\nxg(cq)"),
+             ("relay", "func xy(a, b) {\n a <- b\n}\nc0 = make(chan int64, 1)\nc1 = make(chan int64, 1)\nc1 <- 1\nxy(c0, c1)", "cq = make(chan int64)\ndq = make(chan int64)\np(1)\nxy(cq, dq)"),
+             ("cfor", "func xl(n) {\n for i = 0; i < n || n < 0; i++ {\n  p(1)\n }\n}\nxl(2)", "xl(-1)"),
+             ("while", "func xw(n) {\n k = 0\n for n < 0 || k < n {\n  k++\n  p(1)\n }\n}\nxw(2)", "xw(-1)"),
+             ("recursion", "func xc(n) {\n p(1)\n if n == 0 {\n  return 0\n }\n return xc(n - 1) + 1\n}\nxc(3)", "xc(-1)"),
+             ("fib-return-only", "func xf(n) {\n return n < 2 ? n : xf(n - 1) + xf(n - 2)\n}\nxf(5)", "xf(60)")]
+    for nm, pre, src in rerun:
+        out.append({"id": "rerun-%s|bare" % nm, "src": src + "\np(99)", "pre": pre, "threads": 0})
+        out.append({"id": "rerun-%s|last" % nm, "src": src, "pre": pre, "threads": 0})
+        for wn in ("try", "fn5", "nilco", "defer", "go"):
+            _, wsrc = wrap(wn, src)
+            out.append({"id": "rerun-%s|%s" % (nm, wn), "src": wsrc + "\np(99)", "pre": pre, "threads": THREADS.get(wn, 0)})
     pairs = [(a, b) for a in WRAPS for b in WRAPS if not b.startswith("xfn")]
     rng.shuffle(pairs)
     npairs = 40 if ctx.quick() else 160
